@@ -15,7 +15,7 @@ RULE = ("each case builds 3-14 tagged parameters (shapes of 1-3 dims, dims log-u
         "with or without own lr (float or 0-dim tensor), and passes them through scaled_parameters and one of the three "
         "optimizer classes (SGD with both readout settings). Every resulting group lr is compared with a rule table typed "
         "from the property text. Non-trivial = a tagged parameter whose expected factor != 1; distinct = (family, tag, ndim, "
-        "depth-class, lr-kind, container-kind, dims) signatures. A group's params is a list, a tuple or ONE tensor (all accepted by torch.optim).")
+        "depth-class, lr-kind, container-kind, dims) signatures. A group's params is a list, a tuple or ONE tensor (all accepted by torch.optim). A group's params may also be a one-shot iterator (rebuilt for every call).")
 ASSUMPTIONS = ["torch.optim constructors keep per-group lr values unchanged"]
 IMPORTS = ["unit_scaling.optim", "unit_scaling.parameter"]
 REQUIRED_MONITORS = ["lr:compared", "contract:lr_scale_func_adam", "contract:_get_fan_in", "contract:lr_scale_for_depth",
